@@ -734,7 +734,63 @@ pub fn plans_for(prop: &str, thorough: bool) -> Vec<Plan> {
                 oracles: o,
                 u_cap: 400,
             });
+            if prop == "C07" {
+                // invalid inputs: truncations and single-token splices
+                let mut muts = vec![];
+                for b in base.iter().filter(|c| c.fam == "F-STMT") {
+                    muts.extend(gen::token_mutants(b));
+                }
+                plans.push(Plan {
+                    name: "F-MUT (every token-boundary prefix, token deletion / duplication / swap of the catalogue)",
+                    cases: muts,
+                    cfgs: cross(thorough, |b| vec![b, Cfg { cs: 3, sort: true, ..b }]),
+                    widths: Widths::Classes,
+                    ranges: Ranges::None,
+                    oracles: O_TOTAL,
+                    u_cap: 400,
+                });
+                // every dialect-specific statement under EVERY syntax: the answer must be Ok or a parse error, never a panic
+                plans.push(Plan {
+                    name: "dialect-specific statements x all syntaxes (must be Ok or ParseError)",
+                    cases: base.iter().filter(|c| c.fam == "F-STMT" && c.dial != Dial::Core).cloned().collect(),
+                    cfgs: Box::new(|_c: &Case| crate::cfg::Syn::ALL.iter().map(|s| Cfg::default().with_syn(*s)).collect()),
+                    widths: Widths::Wide,
+                    ranges: Ranges::None,
+                    oracles: O_TOTAL,
+                    u_cap: 400,
+                });
+                // extreme configurations
+                plans.push(Plan {
+                    name: "F-STMT x extreme configurations (indent_width 1..16, collapse, sort, every dialect)",
+                    cases: base.clone(),
+                    cfgs: cross(true, move |b| {
+                        let mut v = vec![];
+                        for iw in if thorough { (1..=16).collect::<Vec<usize>>() } else { vec![1, 7, 16] } {
+                            for cs in [0u8, 1, 2, 3] {
+                                v.push(Cfg { it: 1, iw, cs, ..b });
+                            }
+                        }
+                        v.push(Cfg { sort: true, cs: 3, cp: 3, ..b });
+                        v
+                    }),
+                    widths: Widths::Classes,
+                    ranges: Ranges::None,
+                    oracles: O_TOTAL,
+                    u_cap: 400,
+                });
+                // every range, including inverted / empty / out-of-bounds ones, with collapse
+                plans.push(Plan {
+                    name: "block statements x every pair of range points x collapse",
+                    cases: stmt.iter().filter(|c| c.dial == Dial::Core && (c.text.contains("end") || c.text.contains('{'))).cloned().collect(),
+                    cfgs: cross(false, |b| vec![b, Cfg { cs: 3, ..b }, Cfg { cs: 3, sort: true, ..b }]),
+                    widths: Widths::Classes,
+                    ranges: Ranges::TokenPoints,
+                    oracles: O_TOTAL,
+                    u_cap: 400,
+                });
+            }
         }
+        "C07x" => {}
         "C03" => {
             let kinds: &[usize] = if thorough { &[0, 1, 2, 3, 4, 5, 6] } else { &[0, 1, 3, 5] };
             plans.push(Plan {
